@@ -1,7 +1,7 @@
 (* Dispatch.v -- single entry point of the executable model: opcode * argument -> result.
    Used identically by the extracted OCaml driver and by in-Coq vm_compute samples. *)
 From Coq Require Import List ZArith.
-From Yv Require Import Base.Sx Run.RunSym Run.RunGeom Run.RunCache Run.RunTrunc Run.RunStruct Run.RunBlock Run.RunFermi Run.RunFusion Run.RunSerial Run.RunLinalg Run.RunMps Run.RunMpo Run.RunCanon Run.RunKrylov Run.RunSweep Run.RunStep Run.RunGates Run.RunSwaps.
+From Yv Require Import Base.Sx Run.RunSym Run.RunGeom Run.RunCache Run.RunTrunc Run.RunStruct Run.RunBlock Run.RunFermi Run.RunFusion Run.RunSerial Run.RunLinalg Run.RunMps Run.RunMpo Run.RunGauge Run.RunCanon Run.RunKrylov Run.RunSweep Run.RunStep Run.RunGates Run.RunSwaps.
 Import ListNotations.
 Open Scope Z_scope.
 
@@ -30,6 +30,8 @@ Definition run (op : Z) (arg : sx) : sx :=
   | 91 => run_t_con_qr arg
   | 100 => run_add2 arg
   | 101 => run_mpo_apply arg
+  | 102 => run_mpo_mpo arg
+  | 82 => run_gauge arg
   | 110 => run_canon arg
   | 120 => run_expand arg
   | 121 => run_expmv_pass arg
